@@ -36,7 +36,7 @@ func (Prop) Rule() string {
 		"Oracle: initiator key = responder key = GB/T 32918.3 value computed with ecref affine math/big arithmetic (cached evaluation validated at start-up against ecref.KeyExchange in both roles, which is anchored by the GB/T 32918.5 annex B example incl. S1/S2), ephemeral points = [r]G, confirmation values = reference S_B/S_A, ecdh keys = same value, explicit default UID = empty UID; plain ECDH = x([d]Q) on the d x d product. " +
 		"Exceptional tuples constructed from the reference: dB = +-avf(x([rB]G))*rB mod n (peer sum is a doubling / the point at infinity -> both sides must fail), tA = 0. " +
 		"Rejection: ephemeral peer points off-curve, infinity, x>=p, y>=p, negative, on P-256 -> error from RepondKeyExchange/ConfirmResponder; invalid encodings -> error from ecdh.NewPublicKey; invalid static peer key (struct literal) must never yield a key; every byte of S_B and S_A flipped (^01, ^80), truncated, extended, zeroed, swapped -> refused. " +
-		"E1: BFS to depth 5 (quick 4) over histories of {Init, Respond, ConfirmResponder(nil/correct/wrong), ConfirmInitiator(nil/correct/wrong), SetPeerParameters} on one object (4 variants: peer known at construction or not x confirmation on/off), states merged on the full private state dump + model; " +
+		"E1: BFS to depth 5 (quick 4) over histories of {Init, Respond, ConfirmResponder(nil/correct/wrong), ConfirmInitiator(nil/correct/wrong), SetPeerParameters, Respond(off-curve R), ConfirmResponder(off-curve R)} on one object (4 variants: peer known at construction or not x confirmation on/off), states merged on the full private state dump + model; " +
 		"oracle: never a panic; steps whose required data is missing (no peer, no ephemeral key, no derived point) or that repeat SetPeerParameters return an error; every key/confirmation returned in a state the model defines equals the reference value for the data actually supplied. " +
 		"Widening (widen*.go), all against the same reference, on 3 fixed tuples (GB/T annex B; small scalars whose public keys have a leading zero byte; n-2/dense scalars): " +
 		"(klen) every key length 1..320 and 479..481, 511..513, 1023..1025 (thorough 1..1100, 2047..2049, 4096, 4097) on both implementations, reference = prefix of one KDF evaluation; every ordered pair of 12 (thorough 21) key-length classes in direct succession (ecdh: two SM2SharedKey calls; sm2: two responder objects used alternately), the second key judged; " +
